@@ -1,2 +1,11 @@
-import NipyVerif.Model.C07
-def main : IO Unit := NipyVerif.driverLoop NipyVerif.C07.run
+import NipyVerif.Model.C07Dm
+/-- dispatch over the model files of C07 (grid/regressors, CSV text, paradigms, assembly) -/
+def runAll (ts : NipyVerif.Toks) : String :=
+  match NipyVerif.C07.runCsv ts with
+  | some r => r
+  | none => match NipyVerif.C07.runPar ts with
+    | some r => r
+    | none => match NipyVerif.C07.runDm ts with
+      | some r => r
+      | none => NipyVerif.C07.run ts
+def main : IO Unit := NipyVerif.driverLoop runAll
